@@ -42,3 +42,5 @@ pub fn t_fn_pointer(x: f64) -> Option<f64> { apply_kind(x, half) }
 pub fn t_fn_pointer_ctor(x: f64) -> Option<f64> { apply_kind(x, Some) }
 pub fn t_opt_cmp(a: Option<&f64>, b: &f64) -> bool { a <= Some(b) }
 pub fn t_opt_gt(a: Option<&f64>, b: Option<&f64>) -> bool { PartialOrd::gt(&a, &b) }
+pub fn t_clamp_if(index: usize, last: usize) -> usize { let mut i = index; if last < i { i = last; } i }
+pub fn t_clamp_pair(a: usize, b: usize, last: usize) -> (usize, usize) { let mut x = a; if last < x { x = last; } let mut y = b; if last < y { y = last; } (x, y) }
